@@ -163,7 +163,7 @@ def neutral_r(d):
         out = {"k": "scalar", "prefix": p, "conv": conv_name_reader(d["conv"], d["prefix"]), "null": None}
         if d.get("null"):
             out["null"] = null_bytes(p, d["null"]["wire"])
-            out["null_result"] = d["null"]["result"]
+            out["null_result"] = d["null"]["then"]
         return out
     if k == "lenpref":
         p = neutral_prefix(d["prefix"])
@@ -173,19 +173,19 @@ def neutral_r(d):
                "null": None, "exact": d.get("exact")}
         if d.get("null"):
             out["null"] = null_bytes(p, d["null"]["wire"])
-            out["null_result"] = d["null"]["result"]
+            out["null_result"] = d["null"]["then"]
         return out
     if k == "array":
         p = neutral_prefix(d["prefix"])
         out = {"k": "array", "prefix": p, "bias": d["bias"], "null": None, "item": neutral_r(d["item"])}
         if d.get("null"):
             out["null"] = null_bytes(p, d["null"]["wire"])
-            out["null_result"] = d["null"]["result"]
+            out["null_result"] = d["null"]["then"]
         return out
     if k == "rawfixed":
         if d["size"] == 16 and d.get("conv") == ["UUID", [["bytes", ["X"]]]]:
             n = d.get("null")
-            return {"k": "uuid", "null": n["wire"] if n and n.get("result") == "none" else None}
+            return {"k": "uuid", "null": n["wire"] if n and n.get("then") == "none" else None}
         return {"k": "rawfixed", "size": d["size"], "conv": timeflow.show(d.get("conv"))}
     if k == "marked":
         arms = d["arms"]
